@@ -24,11 +24,14 @@ func cmdC14(args []string) int {
 	double := fs.Int("double", 2, "double-crash schedules per chain")
 	workers := fs.Int("workers", 48, "concurrent schedules")
 	views := fs.Bool("views", true, "run the RPC view queries")
+	big := fs.Int("big", 1, "chains with one BIG block (every crash point of it is run)")
+	bigMin := fs.Int("bigmin", 35, "min Ethereum txs of a big block")
+	bigMax := fs.Int("bigmax", 48, "max Ethereum txs of a big block")
 	out := fs.String("out", ".", "output directory")
 	fs.Parse(args)
 	w := trace.Create(filepath.Join(*out, "trace.ndjson"))
 	st := rpcfam.Drive(w, rpcfam.DriveOpts{Seed: *seed, Chains: *chains, Blocks: *blocks, MaxTxs: *maxTxs, AllCrash: *all, Sample: *sample,
-		Double: *double, Workers: *workers, Views: *views})
+		Double: *double, Workers: *workers, Views: *views, Big: *big, BigMin: *bigMin, BigMax: *bigMax})
 	w.Close()
 	var pairs []string
 	for p := range st.Pairs {
@@ -42,7 +45,8 @@ func cmdC14(args []string) int {
 	sort.Strings(shapes)
 	trace.WriteJSON(filepath.Join(*out, "stats.json"), map[string]interface{}{
 		"chains": st.Chains, "blocks": st.Blocks, "ethTxs": st.EthTxs, "schedules": st.Schedules, "crashes": st.Crashes,
-		"rpcQueries": st.RpcQueries, "events": st.Events, "classes": st.Classes, "pairs": pairs, "viewShapes": shapes, "goMismatch": st.GoMismatch, "stuck": st.Stuck})
+		"rpcQueries": st.RpcQueries, "events": st.Events, "classes": st.Classes, "pairs": pairs, "viewShapes": shapes, "goMismatch": st.GoMismatch, "stuck": st.Stuck,
+		"bigBlocks": st.BigBlocks, "bigCrashPoints": st.BigCrashPoints})
 	fmt.Println("chains", st.Chains, "schedules", st.Schedules, "crashes", st.Crashes, "rpc", st.RpcQueries, "events", st.Events,
 		"classes", st.Classes, "pairs", len(pairs), "goMismatch", st.GoMismatch, "stuck", len(st.Stuck))
 	if len(st.Stuck) > 0 {
